@@ -32,6 +32,7 @@ BIN="$SCR/dtnmc"
   cat "$SCR/build.log"; echo "HARNESS-ERROR: build of instrumented tree failed (not a verdict)"; exit 2; }
 export VERIF_SCRATCH="$SCR/work"; mkdir -p "$VERIF_SCRATCH"
 export VERIF_BIN="$BIN" VERIF_SRC="$SCR/src"
+if [ -n "${VERIF_KEEP:-}" ]; then cp "$BIN" /dev/shm/dtnmc-keep; fi
 "$BIN" "$PROP" "$@"
 rc=$?
 exit $rc
